@@ -25,6 +25,8 @@
 (*                                     -> Balanced                         *)
 (*   "reg_growth"    each caught error leaves a register in the frame (L1) *)
 (*                                     -> NoMonotoneGrowth                 *)
+(*   "stale_deadline" the deadline of a run that ended with an error stays  *)
+(*                   armed (a seeded C08 change) -> RearmedPerRun          *)
 (*   "no_deadline"   a nested execution does not poll the deadline (the    *)
 (*                   seeded C08 changes) -> liveness TimeoutEventuallyFires*)
 (***************************************************************************)
@@ -41,11 +43,12 @@ VARIABLES frames,   \* the VM's call stack: [bar, catches: Seq([t, c, q, s]), r 
           r, q, t,  \* registers, sequence builders, string builders
           ip,       \* next unused instruction address
           tries,    \* try ips that exist in the code of the running frames (for loops that enter a try block again)
-          time,     \* the clock, up to Deadline
+          time,     \* the clock the deadline polls read, up to Deadline
+          spent,    \* clock ticks since the current run started (what the run has really used)
           mon,      \* the monitor: KotoVm state
           n,        \* events produced
           errs      \* errors raised so far (bound)
-vars == <<frames, r, q, t, ip, tries, time, mon, n, errs>>
+vars == <<frames, r, q, t, ip, tries, time, spent, mon, n, errs>>
 
 Ev(name, d, a, x, c, s) == [e |-> name, vm |-> 1, d |-> d, r |-> r, b |-> 0, q |-> q, t |-> t, c |-> c, a |-> a, x |-> x, s |-> s]
 With(e, rr, qq, tt) == [e EXCEPT !.r = rr, !.q = qq, !.t = tt]
@@ -60,7 +63,7 @@ TopF == frames[Depth]
 \* lex: how many try blocks the frame's code position is inside; q0, t0: the builder stacks when the frame was pushed
 NewF(bar) == [bar |-> bar, catches |-> <<>>, r |-> r, lex |-> 0, q0 |-> q, t0 |-> t]
 
-Init == /\ frames = <<>> /\ r = 0 /\ q = 0 /\ t = 0 /\ ip = 1 /\ tries = {} /\ time = 0
+Init == /\ frames = <<>> /\ r = 0 /\ q = 0 /\ t = 0 /\ ip = 1 /\ tries = {} /\ time = 0 /\ spent = 0
         /\ mon = InitState /\ n = 0 /\ errs = 0
 
 (* run(): the activation opens, its frame is pushed, execute_instructions is entered *)
@@ -69,7 +72,8 @@ Run == /\ Idle /\ n < MaxEvents
        /\ r' = 1
        /\ Feed(<<Ev("RunEnter", 0, 0, 0, 0, ""), With(Ev("FramePush", 1, 0, 0, 0, ""), 1, q, t),
                  With(Ev("ExecEnter", 1, 1, 0, 0, ""), 1, q, t)>>)
-       /\ time' = 0
+       \* the limit is armed anew for every run ("stale_deadline": not after a run that ended with an error)
+       /\ time' = (IF "stale_deadline" \in Bug /\ errs > 0 THEN time ELSE 0) /\ spent' = 0
        /\ UNCHANGED <<q, t, ip, tries, errs>>
 
 Busy == ~Idle /\ n < MaxEvents
@@ -81,14 +85,14 @@ MayRun == Busy /\ ~(Polls /\ time >= Deadline)
 Call == /\ MayRun /\ Depth < MaxDepth
         /\ frames' = Append(frames, NewF(FALSE)) /\ r' = r + 3
         /\ Feed(<<With(Ev("FramePush", Depth + 1, 0, 0, 0, ""), r + 3, q, t)>>)
-        /\ UNCHANGED <<q, t, ip, tries, time, errs>>
+        /\ UNCHANGED <<q, t, ip, tries, time, spent, errs>>
 
 (* a native function (operator, functor) calls back into the VM: a frame with an execution barrier *)
 NativeCall == /\ MayRun /\ Depth < MaxDepth
               /\ frames' = Append(frames, NewF(TRUE)) /\ r' = r + 3
               /\ Feed(<<With(Ev("FramePush", Depth + 1, 0, 0, 0, ""), r + 3, q, t),
                         With(Ev("ExecEnter", Depth + 1, 1, 0, 0, ""), r + 3, q, t)>>)
-              /\ UNCHANGED <<q, t, ip, tries, time, errs>>
+              /\ UNCHANGED <<q, t, ip, tries, time, spent, errs>>
 
 (* the top frame returns *)
 Return == /\ MayRun /\ q = TopF.q0 /\ t = TopF.t0        \* compiled code leaves the builders as it found them
@@ -99,7 +103,7 @@ Return == /\ MayRun /\ q = TopF.q0 /\ t = TopF.t0        \* compiled code leaves
                      ELSE IF f.bar THEN <<pop, With(Ev("ExecExit", Depth - 1, 1, 0, 0, ""), f.r, q, t)>>
                      ELSE <<pop>>)
           /\ tries' = IF Depth = 1 THEN {} ELSE tries
-          /\ UNCHANGED <<q, t, ip, time, errs>>
+          /\ UNCHANGED <<q, t, ip, time, spent, errs>>
 
 TryStartA == /\ MayRun /\ Len(TopF.catches) < 2 /\ ~Live
              /\ \E a \in {ip} \cup tries :        \* a new try block, or a loop coming round to one it has been in before
@@ -109,7 +113,7 @@ TryStartA == /\ MayRun /\ Len(TopF.catches) < 2 /\ ~Live
                    /\ Feed(<<Ev("TryStart", Depth, a, a + 10, Len(TopF.catches) + 1, "")>>)
                    /\ ip' = IF a = ip THEN ip + 20 ELSE ip
                    /\ tries' = tries \cup {a}
-             /\ UNCHANGED <<r, q, t, time, errs>>
+             /\ UNCHANGED <<r, q, t, time, spent, errs>>
 
 (* the try block ends normally -- or is left by break/continue: the compiler emits TryEnd before the jump.
    With "stale_catch" the jump leaves the catch point registered and nothing is emitted. *)
@@ -118,7 +122,7 @@ TryEndA == /\ MayRun /\ TopF.catches # <<>> /\ TopF.lex > 0
            /\ \/ /\ frames' = [frames EXCEPT ![Depth].catches = Front(@), ![Depth].lex = @ - 1]
                  /\ Feed(<<Ev("TryEnd", Depth, 0, 0, Len(TopF.catches) - 1, "")>>)
               \/ /\ "stale_catch" \in Bug /\ frames' = [frames EXCEPT ![Depth].lex = @ - 1] /\ Feed(<<>>)
-           /\ UNCHANGED <<r, q, t, ip, tries, time, errs>>
+           /\ UNCHANGED <<r, q, t, ip, tries, time, spent, errs>>
 
 Builder == /\ MayRun
            /\ \/ q < 1 /\ q' = q + 1 /\ t' = t
@@ -126,14 +130,14 @@ Builder == /\ MayRun
               \/ t < 1 /\ t' = t + 1 /\ q' = q
               \/ t > 0 /\ t' = t - 1 /\ q' = q
            /\ Feed(<<>>)
-           /\ UNCHANGED <<frames, r, ip, tries, time, errs>>
+           /\ UNCHANGED <<frames, r, ip, tries, time, spent, errs>>
 
 (* work that changes nothing the monitor sees (a loop spinning): temp registers come and go *)
 Spin == /\ MayRun /\ Depth > 0 /\ Live
         /\ r' = (IF r = TopF.r + 4 THEN TopF.r + 3 ELSE TopF.r + 4)
-        /\ Feed(<<>>) /\ UNCHANGED <<frames, q, t, ip, tries, time, errs>>
+        /\ Feed(<<>>) /\ UNCHANGED <<frames, q, t, ip, tries, time, spent, errs>>
 
-Tick == /\ Busy /\ Limit /\ time < Deadline /\ time' = time + 1
+Tick == /\ Busy /\ Limit /\ time < Deadline /\ time' = time + 1 /\ spent' = spent + 1
         /\ Feed(<<>>) /\ UNCHANGED <<frames, r, q, t, ip, tries, errs>>
 
 (***************************************************************************)
@@ -194,12 +198,12 @@ Fail(cls) ==
        /\ Feed(u.evs)
        /\ tries' = IF u.frames = <<>> THEN {} ELSE tries
     /\ errs' = IF Live THEN errs ELSE errs + 1
-    /\ UNCHANGED <<ip, time>>
+    /\ UNCHANGED <<ip, time, spent>>
 
 (* the host looks at the idle runtime *)
 ObserveA == /\ Idle /\ n < MaxEvents /\ n > 0
             /\ Feed(<<Ev("Observe", 0, 0, 0, 0, "")>>)
-            /\ UNCHANGED <<frames, r, q, t, ip, tries, time, errs>>
+            /\ UNCHANGED <<frames, r, q, t, ip, tries, time, spent, errs>>
 
 Next == Run \/ Call \/ NativeCall \/ Return \/ TryStartA \/ TryEndA \/ Builder \/ Spin \/ Tick
         \/ Fail("thrown") \/ Fail("timeout") \/ ObserveA
@@ -209,6 +213,9 @@ Accepted == mon.ok
 
 (* the model's own view agrees with the monitor's (the two halves describe the same machine) *)
 SameShape == mon.ok /\ VmIndex(mon, 1) # 0 => Len(Vm(mon, 1).frames) = Depth
+
+(* terminating scripts are unaffected by the limit: the clock a run's deadline polls read is the time this run has used *)
+RearmedPerRun == time = spent
 
 (* Liveness: with an execution limit configured, a run does not go on for ever *)
 Fairness == WF_vars(Tick) /\ WF_vars(Fail("timeout")) /\ WF_vars(Return) /\ WF_vars(Run)
